@@ -109,6 +109,22 @@ func TestVerifC11Uploader(t *testing.T) {
 					b.Program = verifrt.Pick(rnd, vocabPrograms)
 				}
 			}
+			if k > 0 && len(cs.Files) > 0 && rnd.Intn(3) == 0 {
+				// a twin of an earlier build of this case, differing in exactly one
+				// identity field (the same tool rebuilt with another toolchain, ...)
+				b = cs.Files[rnd.Intn(len(cs.Files))].Build
+				switch rnd.Intn(5) {
+				case 0:
+					b.GOOS = verifrt.Pick(rnd, vocabOS)
+				case 1:
+					b.GOARCH = verifrt.Pick(rnd, vocabArch)
+				case 2, 3:
+					b.GoVersion = verifrt.Pick(rnd, vocabGo)
+				default:
+					b.Version = verifrt.Pick(rnd, versionsOf(b.Program))
+				}
+				res.Hit("twin-build")
+			}
 			if seen[b] {
 				continue
 			}
@@ -185,7 +201,7 @@ func TestVerifC11Uploader(t *testing.T) {
 		srv.close()
 		os.RemoveAll(td.root)
 	}
-	res.Require("build-approved", "build-outside-os-arch", "build-outside-other")
+	res.Require("build-approved", "build-outside-os-arch", "build-outside-other", "twin-build")
 	if err := res.Write(); err != nil {
 		t.Fatal(err)
 	}
